@@ -6,7 +6,7 @@ PID = "C16"
 LEAN_MODULE = "Sb.Properties.C16Quantum"
 THEOREMS = [
     "Sb.C16.constants", "Sb.C16.splitDur_sum", "Sb.C16.splitDur_le", "Sb.C16.appendMany_append",
-    "Sb.C16.appendLineAux_as_segments", "Sb.C16.holdChunks_sum", "Sb.C16.init_invalid_scale",
+    "Sb.C16.appendLineAux_as_segments", "Sb.C16.holdChunks_sum", "Sb.C16.holdForAux_segments", "Sb.C16.appendSegment_last", "Sb.C16.init_invalid_scale",
     "Sb.C16.setStart_after_segment", "Sb.C16.appendLine_rejects",
             "Sb.C16.scaleCoord_within_quantum", "Sb.C16.scaleCoord_quotient_small", "Sb.Proofs.floor_round_within_one", "Sb.Proofs.roundF32_intCast", "Sb.Proofs.roundF32_mono",
             "Sb.C16.appendLine_ok", "Sb.C16.appendLineAux_ok", "Sb.C16.scaleCoord_between", "Sb.C16.validC_mid", "Sb.C16.validPt_origin",
